@@ -179,10 +179,11 @@ class Collector:
     """collects raw events (field writes and calls) of a root body, following crate-local
     helpers and closures, with parameters / captures substituted"""
 
-    def __init__(self, F, stop_names=(), depth=INLINE_DEPTH):
+    def __init__(self, F, stop_names=(), depth=INLINE_DEPTH, stop_pub=True):
         self.F = F
         self.stop = set(stop_names)
         self.depth = depth
+        self.stop_pub = stop_pub   # public / trait functions of the crate stay call events (they have their own contracts)
         self.lost = []   # places where inlining stopped at the bound
 
     def collect(self, root):
@@ -260,6 +261,8 @@ class Collector:
                 cb = self.F.bodies.get(c["path"])
                 if cb is None or c.get("name") in self.stop:
                     continue
+                if self.stop_pub and (cb.vis == "pub" or cb.trait):
+                    continue
                 if depth >= self.depth:
                     self.lost.append((body, site, c["path"]))
                     continue
@@ -282,6 +285,14 @@ def classify(ev):
                 out.append((V_FIELDS[sub[2]] + "_write", {"x": strip_load(sub[1]), "val": ("partial", ev.val)}))
                 return out
         if vertex_of(loc) is not None:
+            v = strip_load(ev.val)
+            if v[0] == "agg" and v[1] == "Vertex":
+                # `*vtx = Vertex { .. }`: four field stores at once
+                for fname, fe in v[3]:
+                    kind = V_FIELDS.get("Vertex::" + fname)
+                    if kind:
+                        out.append((kind + "_write", {"x": loc, "val": fe}))
+                return out
             out.append(("vertex_write", {"x": loc, "val": ev.val}))
             return out
         for f in ("Sodg::stores", "Sodg::branches"):
@@ -428,24 +439,3 @@ def load_site(e):
     return e[2] if e[0] == "load" else None
 
 
-# ------------------------------------------------------------------ closure predicate summaries
-def pred_summary(cb):
-    """for a bool-returning closure body: list of fact sets; the closure returns true iff one of
-    the conjunctions holds (a && b in MIR is a diamond writing the return place)."""
-    out = []
-    for d in cb.defs().get(0, []):
-        bb, idx, kind, payload = d
-        site = (bb, idx)
-        facts = set(cb.facts_at(site))
-        if kind == "assign":
-            e = cb.expr_rvalue(payload, site)
-        else:
-            e = cb.expr_call(payload, site)
-        if e[0] == "const":
-            if e[1]:
-                out.append(frozenset(facts))
-            continue
-        f = norm_cond(e, True)
-        facts.add(f)
-        out.append(frozenset(facts))
-    return out
